@@ -506,7 +506,18 @@ fn run_v2s(seed: u64) -> Result<u64, Fail> {
             // popping an (empty) packet is progress too: count queue length via verdict sequence instead
             let r = std::panic::catch_unwind(std::panic::AssertUnwindSafe(|| match b.work() {
                 Ok(BlockRet::Again) => "Again",
-                Ok(BlockRet::WaitForStream(_, _)) => "Wait",
+                Ok(BlockRet::WaitForStream(w, n)) => {
+                    // a wait for an amount the output already has free (or a packet the queue already holds) is untruthful;
+                    // timing probe as in step(), where it can matter, twice per (amount, situation)
+                    let room = CAP.saturating_sub(before.1);
+                    let due = room >= n && {
+                        let mut m = WAIT_SEEN.lock().unwrap();
+                        let c = m.entry(format!("v2s/{n}/{}", room >= n)).or_insert(0);
+                        *c += 1;
+                        *c <= 2
+                    };
+                    if due && WAIT_PROBES.fetch_add(1, std::sync::atomic::Ordering::Relaxed) < 80 && !wait_is_truthful(w, n) { "UntruthfulWait" } else { "Wait" }
+                }
                 Ok(_) => "Other",
                 Err(_) => "Err",
             }));
@@ -514,10 +525,14 @@ fn run_v2s(seed: u64) -> Result<u64, Fail> {
             if r.is_err() {
                 return Err(Fail { target: target.into(), prop: "C15", label: "C15.v2s.work-does-not-panic".into(), what: "work() panicked".into(), seed, params });
             }
+            if matches!(r, Ok("UntruthfulWait")) && readable(&out) == before.1 {
+                return Err(Fail { target: target.into(), prop: "C09", label: "C09.v2s.wait-names-the-blocking-stream".into(),
+                    what: format!("work() made no progress and reported a wait that the stream it names already satisfies ({} samples free in the output)", CAP - before.1), seed, params });
+            }
             let _ = (before, after());
             // C09: a runner asks eof() after a wait verdict and retires the block when it says yes; it must not say yes
             // while it still owes data it has taken from its input
-            if tx.is_none() && matches!(r, Ok("Wait")) {
+            if tx.is_none() && matches!(r, Ok("Wait") | Ok("UntruthfulWait")) {
                 use rustradio::block::BlockEOF;
                 if b.eof() {
                     let emitted = got.len() + readable(&out);
@@ -681,9 +696,14 @@ fn run_hdlc(seed: u64) -> Result<u64, Fail> {
     d.set_fix_bits(fix);
     let mut bits: Vec<u8> = vec![];
     let mut want: Vec<Vec<u8>> = vec![];
-    // noise preamble that contains no flag: alternate bits, then up to 6 ones
-    for i in 0..rng.below(12) { bits.push((i % 2) as u8); }
-    bits.push(0);
+    // noise preamble that contains no flag: alternate bits and a zero -- or key-up noise of 1..12 one-bits right in front
+    // of the first flag (the hunt register starts as all ones: `1111110` is NOT a flag, its leading zero is missing)
+    if rng.below(3) == 0 {
+        for _ in 0..(1 + rng.below(12)) { bits.push(1); }
+    } else {
+        for i in 0..rng.below(12) { bits.push((i % 2) as u8); }
+        bits.push(0);
+    }
     let nframes = 1 + rng.below(5);
     let mut shared = false; // the bits so far end with a flag that the next frame may use as its opening flag
     for _ in 0..nframes {
@@ -698,14 +718,26 @@ fn run_hdlc(seed: u64) -> Result<u64, Fail> {
         hdlc_frame3(&payload, with_crc, !(shared && rng.below(2) == 0), flip, &mut bits);
         if deliver && (flip.is_none() || fix) { want.push(payload); }
         // idle: 0..3 extra flags or some zeros (never 6 ones directly before a flag)
-        match rng.below(3) {
+        match rng.below(4) {
             0 => { shared = true; }
             1 => {
                 bits.extend_from_slice(&[0, 1, 1, 1, 1, 1, 1, 0]);
                 shared = true;
             }
+            // mark idle / abort: k one-bits between two frames (7 or more abort and send the deframer hunting again; fewer
+            // are a too-short frame).  Not 6: `0 111111 0` would be a flag sharing both its zeros.  Only where stray bits
+            // cannot be a deliverable frame (a checksum or a minimum size is configured).
+            3 if with_crc || min_size >= 1 => {
+                for _ in 0..rng.pick(&[1, 2, 3, 4, 5, 7, 8, 13, 20]) { bits.push(1); }
+                shared = false;
+            }
             _ => { bits.extend_from_slice(&[0, 0, 1, 0]); shared = false; }
         }
+    }
+    // after the last frame: sometimes a flag that shares its leading zero with the closing flag (`1111110`): encloses no
+    // bits at all, must be harmless
+    if shared && rng.below(2) == 0 {
+        bits.extend_from_slice(&[1, 1, 1, 1, 1, 1, 0]);
     }
     bits.extend_from_slice(&[0, 0, 0, 0]);
     // feed in random pieces
@@ -870,7 +902,8 @@ fn bx_blocks() {
                 "vsrc" => run_vsrc(seed),
                 "v2s" => run_v2s(seed),
                 "consts" => run_consts(seed),
-                "hdlc" => run_hdlc(seed),
+                // cheap: twenty runs per schedule slot
+                "hdlc" => (|| { let mut w = 0; for k in 0..20 { w += run_hdlc(seed * 20 + k)?; } Ok(w) })(),
                 "sync" => run_sync(seed),
                 "repeat" => { if runs > 0 { break; } run_repeat() }
                 _ => Ok(0),
